@@ -392,25 +392,26 @@ theorem headStage_ok {R B : Nat} {tok : IS → Out LoopRes} (ht : StageOk R tok 
 def InstOk (R : Nat) (inst : Bool → IS → Out LoopRes) (K B : Nat) : Prop := ∀ d, StageOk R (inst d) K B
 
 /-- an instance reader as the instance loop needs it: it returns, never un-reads, and its steps are paid by the loop's own
-potential `dataPot D R` up to a constant `K` -/
-def InstOkD (D R : Nat) (inst : Bool → IS → Out LoopRes) (K B : Nat) : Prop :=
-  ∀ d s, s.m ≤ B → ∃ r, inst d s = .ok r ∧ r.s.m ≤ s.m ∧ r.steps + dataPot D R r.s ≤ dataPot D R s + K
+potential `dataPot D R` up to a constant `K` — and `E` more when it leaves the stream failed (which ends the loop) -/
+def InstOkD (D R : Nat) (inst : Bool → IS → Out LoopRes) (K E B : Nat) : Prop :=
+  ∀ d s, s.m ≤ B → ∃ r, inst d s = .ok r ∧ r.s.m ≤ s.m ∧
+    r.steps + dataPot D R r.s ≤ dataPot D R s + K + (if r.s.m = 0 then E else 0)
 
-theorem InstOk.toD {R K B : Nat} {inst : Bool → IS → Out LoopRes} (h : InstOk R inst K B) (D : Nat) : InstOkD D R inst K B := by
+theorem InstOk.toD {R K B : Nat} {inst : Bool → IS → Out LoopRes} (h : InstOk R inst K B) (D : Nat) : InstOkD D R inst K 0 B := by
   intro d s hB
   obtain ⟨r, a, b, cc⟩ := h d s hB
   have hDr := mul_mono' D b
-  exact ⟨r, a, b, by simp only [dataPot, bigPot]; omega⟩
+  exact ⟨r, a, b, by simp only [dataPot, bigPot]; split <;> omega⟩
 
 /-- the instance loop of `ReadData1` / `ReadData2`: terminates with fuel `m + 1`, never un-reads, at most `32 + D` steps per
 consumed byte (all nesting levels), and the cut-off: it never counts more than `maxErr + 1` failed instances, and stops
 as soon as it has -/
-theorem dataLoop_okD {R B K D maxErr : Nat} {recover : IS → Byte → Nat → Out (IS × Byte × Bool × Nat)}
+theorem dataLoop_okD {R B K E D maxErr : Nat} {recover : IS → Byte → Nat → Out (IS × Byte × Bool × Nat)}
     {inst : Bool → IS → Out LoopRes} {tok : IS → Out LoopRes} (wsMode pass2 : Bool)
-    (hrec : RecoverOk R recover B) (hinst : InstOkD D R inst K B) (ht : StageOk R tok 1 B) (hD : K + 7 ≤ D) :
+    (hrec : RecoverOk R recover B) (hinst : InstOkD D R inst K E B) (ht : StageOk R tok 1 B) (hD : K + 7 ≤ D) :
     ∀ (fuel : Nat) (s : IS) (e : Bool) (c : Byte) (del : Bool) (nc cnt steps : Nat), s.m + 1 ≤ fuel → s.m ≤ B → nc ≤ maxErr →
       ∃ r, dataLoop recover inst tok wsMode pass2 maxErr fuel s e c del nc cnt steps = .ok r ∧ r.s.m ≤ s.m ∧
-        r.steps + dataPot D R r.s ≤ steps + dataPot D R s + (K + 8) ∧
+        r.steps + dataPot D R r.s ≤ steps + dataPot D R s + (K + 8 + E) ∧
         nc ≤ r.notCreated ∧ r.notCreated ≤ maxErr + 1 ∧ (r.aborted = true ↔ r.notCreated = maxErr + 1) := by
   intro fuel
   induction fuel with
@@ -459,11 +460,18 @@ theorem dataLoop_okD {R B K D maxErr : Nat} {recover : IS → Byte → Nat → O
         · intro hh'; exfalso; omega
       | false =>
         simp only []
-        obtain ⟨r, a, b, hqr⟩ := hinst (wsMode && del1) s2 (by omega)
+        obtain ⟨r, a, b, hqr'⟩ := hinst (wsMode && del1) s2 (by omega)
         rw [a]
         simp only []
+        have hqr : r.s.m ≠ 0 → r.steps + dataPot D R r.s ≤ dataPot D R s2 + K := by
+          intro hne; rw [if_neg hne] at hqr'; omega
+        have hqz : r.s.m = 0 → r.steps ≤ dataPot D R s2 + K + E := by
+          intro he0; rw [if_pos he0, dataPot_zero he0] at hqr'; omega
         have hprog := hpr2 rfl
-        have hbud : st + r.steps + dataPot D R r.s + 1 + (K + 8) ≤ steps + dataPot D R s + (K + 8) ∨ r.s.m = 0 := by
+        have hbud : st + r.steps + dataPot D R r.s + 1 + (K + 8 + E) ≤ steps + dataPot D R s + (K + 8 + E) ∨ r.s.m = 0 := by
+          by_cases hr0 : r.s.m = 0
+          · right; exact hr0
+          have hqr := hqr hr0
           rcases hprog with h1 | h1
           · left
             have hdd := mul_drop' D h1
@@ -471,8 +479,9 @@ theorem dataLoop_okD {R B K D maxErr : Nat} {recover : IS → Byte → Nat → O
               simp only [dataPot]; omega
             omega
           · right; omega
-        have hz : r.s.m = 0 → st + r.steps + 1 ≤ steps + dataPot D R s + (K + 7) := by
+        have hz : r.s.m = 0 → st + r.steps + 1 ≤ steps + dataPot D R s + (K + 7 + E) := by
           intro hz0
+          have hqr := hqz hz0
           have h00 : dataPot D R r.s = 0 := dataPot_zero hz0
           have : 0 ≤ dataPot D R s2 := Nat.zero_le _
           rcases hprog with h1 | h1
@@ -544,8 +553,10 @@ theorem dataLoop_ok {R B K D maxErr : Nat} {recover : IS → Byte → Nat → Ou
     ∀ (fuel : Nat) (s : IS) (e : Bool) (c : Byte) (del : Bool) (nc cnt steps : Nat), s.m + 1 ≤ fuel → s.m ≤ B → nc ≤ maxErr →
       ∃ r, dataLoop recover inst tok wsMode pass2 maxErr fuel s e c del nc cnt steps = .ok r ∧ r.s.m ≤ s.m ∧
         r.steps + dataPot D R r.s ≤ steps + dataPot D R s + (K + 8) ∧
-        nc ≤ r.notCreated ∧ r.notCreated ≤ maxErr + 1 ∧ (r.aborted = true ↔ r.notCreated = maxErr + 1) :=
-  dataLoop_okD wsMode pass2 hrec (hinst.toD D) ht hD
+        nc ≤ r.notCreated ∧ r.notCreated ≤ maxErr + 1 ∧ (r.aborted = true ↔ r.notCreated = maxErr + 1) := by
+  intro fuel s e c del nc cnt steps h1 h2 h3
+  obtain ⟨r, a, b, cc, d⟩ := dataLoop_okD (E := 0) wsMode pass2 hrec (hinst.toD D) ht hD fuel s e c del nc cnt steps h1 h2 h3
+  exact ⟨r, a, b, by omega, d⟩
 
 theorem dataPot_le {D R : Nat} (s : IS) : dataPot D R s ≤ (32 + D) * s.m + R := by
   have := pot_le (R := R) s
